@@ -73,7 +73,8 @@ def echo_message(rng: random.Random) -> bytes:
         hdrs.append(b'Content-MD5: ' + pv())
         body = hv() + b'\r\n'
     elif kind in (3, 4, 5):
-        depth = rng.choice([1, 1, 2, 3, 30])
+        depth = rng.choice([1, 1, 2, 3, 30] if rng.random() < 0.95 else
+                           [99, 101, 140, 400])
         nparts = rng.choice([0, 1, 2, 3])
         hdrs.append(b'Content-Type: multipart/' + rng.choice(
             [b'mixed', b'alternative', pv()]) + b'; boundary="b0"; x="' +
@@ -100,9 +101,25 @@ def echo_message(rng: random.Random) -> bytes:
     elif kind == 6:
         hdrs.append(b'Content-Type: message/rfc822')
         body = echo_message(rng) if rng.random() < 0.7 else hv()
+        if rng.random() < 0.12:
+            # a long chain of messages inside messages: every use of the
+            # structure recurses once per level
+            for _ in range(rng.choice([60, 99, 100, 101, 102, 150, 300,
+                                       450, 1200])):
+                body = b'Content-Type: message/rfc822\r\n\r\n' + body
     else:
         body = hv()
     return b'\r\n'.join(hdrs) + b'\r\n\r\n' + body
+
+
+APPEND_DATES = ['15-Jan-2024 10:00:00 +0000', ' 1-Jan-2024 00:00:00 -0800',
+                '01-Jan-2020 00:00:00 +000030', '01-Jan-2020 00:00:00 +00:30',
+                '01-Jan-2020 00:00:00 Z', '01-Jan-2020 00:00:00 +0530',
+                '01-Jan-2020 00:00:00 -000030.5', '1-Jan-2020 00:00:00 +0000',
+                '01-jan-2020 00:00:00 +0000', '31-Dec-9999 23:59:59 -1200',
+                '01-Jan-0001 00:00:00 +1400', '01-Jan-2020 00:00:00 +2359',
+                '01-Jan-2020 00:00:00 -0000', '01-Jan-2020 00:00:00 UTC',
+                '01-Jan-2020 0:0:0 +0000', '01-Jan-20 00:00:00 +0000']
 
 
 ECHO_FETCH = ['ENVELOPE', 'BODYSTRUCTURE', 'BODY', 'FULL', 'ALL',
@@ -199,6 +216,11 @@ def gen_echo_case(rng: random.Random, tier: str, backends=('dict',)) -> dict:
              'flags': rng.choice([None, ['\\Seen'], ['$kw', 'a]b'],
                                   ['\\Answered', 'x' * 70]])}
             for _ in range(rng.randint(1, 3))]
+    if rng.random() < 0.4:
+        # date-time spellings, several of them outside the grammar but
+        # inside what strptime takes: whatever is stored comes back in
+        # INTERNALDATE
+        rng.choice(msgs)['date'] = rng.choice(APPEND_DATES)
     steps.append({'actions': [name_action(rng, 'append', target, msgs=msgs,
                                           literal='litplus')]})
     steps.append({'actions': [name_action(rng, 'select', target)]})
